@@ -26,13 +26,13 @@ Definition same_slots (a b : neg) : Prop :=
   st a = st b /\ pendL a = pendL b /\ curL a = curL b /\ pendR a = pendR b /\
   curR a = curR b /\ events a = events b /\ closed a = closed b.
 
-Lemma create_offer_slots n id : same_slots (fst (create_offer n id)) n.
+Lemma create_offer_slots n id g : same_slots (fst (create_offer n id g)) n.
 Proof.
   unfold create_offer, same_slots; destruct (closed n) eqn:Ec; [cbn; repeat split; auto|].
-  match goal with |- context [if ?c then _ else _] => destruct c end; cbn; repeat split; auto.
+  repeat match goal with |- context [if ?c then _ else _] => destruct c end; cbn; repeat split; auto.
 Qed.
 
-Lemma create_answer_slots n id sn : same_slots (fst (create_answer n id sn)) n.
+Lemma create_answer_slots n id sn g : same_slots (fst (create_answer n id sn g)) n.
 Proof.
   unfold create_answer, same_slots.
   destruct (remote_description n); [|cbn; repeat split; reflexivity].
@@ -86,10 +86,10 @@ Qed.
 Lemma step_stable_inv r n o :
   coherent r -> stable_inv n -> stable_inv (fst (step_r r n o)).
 Proof.
-  intros Hco Hn. destruct o as [id|id sn|d|d|]; cbn.
-  - destruct (create_offer_slots n id) as [Hs [Hpl [_ [Hpr _]]]].
+  intros Hco Hn. destruct o as [id g|id sn g|d|d|]; cbn.
+  - destruct (create_offer_slots n id g) as [Hs [Hpl [_ [Hpr _]]]].
     unfold stable_inv. rewrite Hs, Hpl, Hpr. exact Hn.
-  - destruct (create_answer_slots n id sn) as [Hs [Hpl [_ [Hpr _]]]].
+  - destruct (create_answer_slots n id sn g) as [Hs [Hpl [_ [Hpr _]]]].
     unfold stable_inv. rewrite Hs, Hpl, Hpr. exact Hn.
   - destruct (set_local r n d) as [n' res] eqn:E. cbn.
     apply set_local_cases in E. destruct E as [[E _] | [E _]]; [subst; exact Hn|].
@@ -127,10 +127,10 @@ Qed.
 
 Lemma step_closed_inv r n o : closed_inv n -> closed_inv (fst (step_r r n o)).
 Proof.
-  intro Hn. destruct o as [id|id sn|d|d|]; cbn.
-  - destruct (create_offer_slots n id) as [Hs [_ [_ [_ [_ [_ Hc]]]]]].
+  intro Hn. destruct o as [id g|id sn g|d|d|]; cbn.
+  - destruct (create_offer_slots n id g) as [Hs [_ [_ [_ [_ [_ Hc]]]]]].
     unfold closed_inv. rewrite Hs, Hc. exact Hn.
-  - destruct (create_answer_slots n id sn) as [Hs [_ [_ [_ [_ [_ Hc]]]]]].
+  - destruct (create_answer_slots n id sn g) as [Hs [_ [_ [_ [_ [_ Hc]]]]]].
     unfold closed_inv. rewrite Hs, Hc. exact Hn.
   - destruct (set_local r n d) as [n' res] eqn:E. cbn.
     apply set_local_cases in E. destruct E as [[E _] | [E _]]; [subst; exact Hn|].
@@ -211,10 +211,10 @@ Lemma step_local_offer_pending o n op :
   local_offer_pending o n -> st (fst (step n op)) <> Stable ->
   local_offer_pending o (fst (step n op)).
 Proof.
-  intros Hn. unfold step. destruct op as [id|id sn|d|d|]; cbn; intro Hns.
-  - destruct (create_offer_slots n id) as [Hs [Hpl _]].
+  intros Hn. unfold step. destruct op as [id g|id sn g|d|d|]; cbn; intro Hns.
+  - destruct (create_offer_slots n id g) as [Hs [Hpl _]].
     unfold local_offer_pending. rewrite Hs, Hpl. exact Hn.
-  - destruct (create_answer_slots n id sn) as [Hs [Hpl _]].
+  - destruct (create_answer_slots n id sn g) as [Hs [Hpl _]].
     unfold local_offer_pending. rewrite Hs, Hpl. exact Hn.
   - destruct (set_local as_is n d) as [n' res] eqn:E. cbn in *.
     apply set_local_cases in E. destruct E as [[E _] | [E _]]; [subst; exact Hn|].
@@ -229,10 +229,10 @@ Lemma step_remote_offer_pending o n op :
   remote_offer_pending o n -> st (fst (step n op)) <> Stable ->
   remote_offer_pending o (fst (step n op)).
 Proof.
-  intros Hn. unfold step. destruct op as [id|id sn|d|d|]; cbn; intro Hns.
-  - destruct (create_offer_slots n id) as [Hs [_ [_ [Hpr _]]]].
+  intros Hn. unfold step. destruct op as [id g|id sn g|d|d|]; cbn; intro Hns.
+  - destruct (create_offer_slots n id g) as [Hs [_ [_ [Hpr _]]]].
     unfold remote_offer_pending. rewrite Hs, Hpr. exact Hn.
-  - destruct (create_answer_slots n id sn) as [Hs [_ [_ [Hpr _]]]].
+  - destruct (create_answer_slots n id sn g) as [Hs [_ [_ [Hpr _]]]].
     unfold remote_offer_pending. rewrite Hs, Hpr. exact Hn.
   - destruct (set_local as_is n d) as [n' res] eqn:E. cbn in *.
     apply set_local_cases in E. destruct E as [[E _] | [E _]]; [subst; exact Hn|].
